@@ -1,4 +1,5 @@
 import NfcVerif.Model.Tlv
+import NfcVerif.Model.T1Format
 open NfcVerif NfcVerif.Tlv
 
 /-! line-protocol driver for the Type 1 / Type 2 Tag model (checks C01, C02, C03) -/
@@ -75,6 +76,16 @@ def doFormat (m : Bytes) (wipe : Option Nat) : String :=
       let cmds := diffUnits 4 m m'
       s!"true | {showCmds cmds} | {showRead t2Cfg (apply m cmds)}"
 
+/-- Topaz (`t1s`) / Topaz-512 (`t1d`) format -/
+def doFormatT1 (k : String) (m : Bytes) (wipe : Option Nat) : String :=
+  let r := if k = "t1s" then formatTopaz m wipe else formatTopaz512 m wipe
+  let c := if k = "t1s" then t1Cfg 1 else t1Cfg 8
+  match r with
+  | .error e => "exc " ++ e.name
+  | .ok m' =>
+    let cmds := diffUnits c.unit m m'
+    s!"true | {showCmds cmds} | {showRead c (apply m cmds)}"
+
 def handle (line : String) : String :=
   match line.splitOn " " with
   | ["r", k, mh] => match cfgOf k, parseHex mh with
@@ -86,6 +97,8 @@ def handle (line : String) : String :=
       | .ok (some L) => if decide (WF c m L) && decide (Hdr3 L n) then "1" else "0"
       | _ => "0")
     | _, _, _ => "bad-op"
+  | ["ft1", k, mh, w] => match parseHex mh, w.toInt? with
+    | some m, some w => doFormatT1 k m (if w < 0 then none else some w.toNat) | _, _ => "bad-op"
   | ["f", mh, w] => match parseHex mh, w.toInt? with
     | some m, some w => doFormat m (if w < 0 then none else some w.toNat) | _, _ => "bad-op"
   | _ => "bad-op"
